@@ -175,7 +175,8 @@ def SEnv.access (Γ : SEnv) (e : Entry) (r : Recv) : Except Rej SEnv :=
   match r with
   | .ref => .ok (Γ.useShr e.var)
   | .refMut => if e.acc == .shrRef then .error .access else .ok (Γ.useMut e.var)
-  | .value => if e.movable then .ok (Γ.remove e.var) else .error .access
+  -- (a by-value method is never reached through `Deref`: a claim guard / pool guard cannot be moved out of)
+  | .value => if e.movable && e.kind != .claim && e.kind != .poolGuard then .ok (Γ.remove e.var) else .error .access
 
 def evalLt (e : Entry) (m : Mode) : Lt → Option Region
   | .recv => some (.borrow e.var m :: e.self)
@@ -290,6 +291,9 @@ def closureShape : Op → List Lt → Option (Bool × Bool)
 
 def locals (Γ : SEnv) : List Var := (Γ.ents.filter (fun e => e.depth == Γ.depth)).map (·.var)
 
+/-- the receiver mode a call is typed with: `claim(&self)` is typed as an exclusive borrow (see the file header) -/
+def effRecv (sig : Sig) : Recv := if sig.ret == .claimGuard then .refMut else sig.recv
+
 def checkCall (t : Table) (Γ : SEnv) (x h : Var) (op : Op) (owner name : String) : Except Rej SEnv :=
   match t.lookup owner name with
   | none => .error .notApplicable
@@ -299,12 +303,10 @@ def checkCall (t : Table) (Γ : SEnv) (x h : Var) (op : Op) (owner name : String
     | .error r => .error r
     | .ok e =>
       if !applicable t sig.ownerK e then .error .notApplicable else
-      -- `claim(&self)` is typed as an exclusive borrow (see the file header)
-      let recv := if sig.ret == .claimGuard then .refMut else sig.recv
-      match Γ.access e recv with
+      match Γ.access e (effRecv sig) with
       | .error r => .error r
       | .ok Γ1 =>
-        match mkResult x Γ.depth e recv.mode sig.ret sig.lts with
+        match mkResult x Γ.depth e (effRecv sig).mode sig.ret sig.lts with
         | none => .error .illformed
         | some none => .ok Γ1
         | some (some ne) => Γ1.declare ne
@@ -541,7 +543,8 @@ def runCall (σ : DState) (x h : Var) (op : Op) : Except Fault DState :=
     | .viewScope =>
         if r.kind.scopes then .ok (σ.set x (Rt.hdl .scope r.arena)) else .error .stuck
     | .viewSame =>
-        if r.kind == .bump || r.kind == .scope then .ok (σ.set x (Rt.hdl r.kind r.arena)) else .error .stuck
+        if r.kind == .bump then .ok (σ.set x (Rt.hdl .bump r.arena))
+        else if r.kind.scopes then .ok (σ.set x (Rt.hdl .scope r.arena)) else .error .stuck
     | .claim =>
         if r.kind.scopes then .ok (σ.set x (Rt.hdl .claim r.arena)) else .error .stuck
     | .convert =>
